@@ -217,7 +217,7 @@ def test_zfpy_contract(rng, n=6):
 
 REAL_CALL = r'''
 import sys, json, io, contextlib, numpy as np
-sys.path.insert(0, %(root)r); sys.path.insert(1, '/repo')
+sys.path.insert(0, %(root)r); sys.path.insert(1, __import__('os').environ.get('VERIF_REPO', '/repo'))
 import warnings; warnings.filterwarnings('ignore')
 from harness import readers
 import seismic_zfp.read as R
